@@ -14,7 +14,8 @@ use std::path::PathBuf;
 use vh::report::Args;
 use vh::snapshot::Scratch;
 
-pub const PAYLOADS: [&str; 18] = ["", "a", "a b", "\"", "\\", "'''", "\"\"\"", "\n", "\r\n", "\t", "\u{0}", "\u{1f}", "\u{7f}", "é", "😀", "#", "=", "[x]"];
+// the last two: text that looks like TOML structure inside a multi-line string (blank line + table header, key = value lines)
+pub const PAYLOADS: [&str; 20] = ["", "a", "a b", "\"", "\\", "'''", "\"\"\"", "\n", "\r\n", "\t", "\u{0}", "\u{1f}", "\u{7f}", "é", "😀", "#", "=", "[x]", "a\n\n[x]\nb = 1\n\n[[y]]\n", "k = \"v\"\n# c\n\n"];
 
 /// (toml value, tagged json) pairs: every TOML value kind, depth <= 2
 pub fn gen_values() -> Vec<(toml::Value, Value)> {
